@@ -177,12 +177,12 @@ var checks = map[string]*Check{
 		Engine: "E1", DesignRef: "6/C06",
 		Technique:   "bounded-exhaustive enumeration of step and walk cases with deep before/after snapshots of every argument, map-identity (alias) checks and repeat-call comparison",
 		LevelText:   "Every case of the C04 step space and the C05 walk space (quick vocabularies) is executed with deep snapshots of state, messages, spec, control and props taken before and after; any difference, any returned state sharing the caller's bindings map, and any difference between two identical calls is a violation.",
-		LevelNote:   "Trusted: the reflect-based snapshot (rt/snap). Generated native actions never write to the map they are given (action misbehaviour is not engine behaviour).",
+		LevelNote:   "Trusted: the reflect-based snapshot (rt/snap). In the step space generated native actions never write to the map they are given; the walk space includes a native action that does (the engine hands an action a copy of the bindings, so not even that reaches the caller's state); a native guard on a pattern-less branch is handed the step's own bindings and is not generated with in-place writes.",
 		Assumptions: append([]string{"failing behaviours are generated systematically: throwing / bad-return / same-map actions, rejecting and throwing guards, steps ending at the error node, walks hitting the limit or a breakpoint"}, commonAssumptions...)},
 	"C18": {ID: "C18", Parts: []Part{{Harness: "core", Func: "C18"}, {Harness: "corec", Func: "C18c", Race: true}, {Harness: "sio", Func: "C18sio"}}, GoMaxProcs: 1, Category: "exploration", QuickDeadline: 200, ThoroughDeadline: 900,
 		Engine: "E1+E2", DesignRef: "6/C18",
 		Technique:   "bounded-exhaustive enumeration of states with permanent bindings x action/guard programs x node shapes x error routing on the real Spec.Step; plus stateless schedule exploration (with a ThreadSanitizer pass) of machines with different permanent bindings walked concurrently over one compiled spec",
-		LevelText:   "All combinations of a state universe with permanent bindings and an action/guard program list covering every way of returning bindings (and of failing) are executed through Spec.Step with every error-routing setting; whenever a state results every permanent binding must be present and unchanged; no crash. Concurrent part: every interleaving (within the deviation bound) of 2-3 walks of machines with different permanent bindings over one compiled spec whose actions and guards delete and overwrite them; each walk must equal its solo walk. On the sio host: specifications with boot / toob sources and actions of every kind, the host creating, re-specifying and messaging the machine - its permanent bindings stay.",
+		LevelText:   "All combinations of a state universe with permanent bindings and an action/guard program list covering every way of returning bindings (and of failing) are executed through Spec.Step with every error-routing setting, and again as the second step of a Spec.Walk that starts at a node in front (so that failures end in the error state a walk makes); whenever a state results every permanent binding must be present and unchanged; no crash. Concurrent part: every interleaving (within the deviation bound) of 2-3 walks of machines with different permanent bindings over one compiled spec whose actions and guards delete and overwrite them; each walk must equal its solo walk. On the sio host: specifications with boot / toob sources and actions of every kind, the host creating, re-specifying and messaging the machine - its permanent bindings stay.",
 		LevelNote:   "Trusted: action-language renderers. Only the listed programs and states are covered.",
 		Assumptions: commonAssumptions},
 	"C05": {ID: "C05", Parts: []Part{{Harness: "core", Func: "C05"}, {Harness: "sio", Func: "C05sio"}}, Category: "model_checking", QuickDeadline: 200, ThoroughDeadline: 1500,
